@@ -58,6 +58,21 @@ def build_programs(R):
             i += 1
             spec = gen_app.gen_spec(rng, name, klass)
             progs.append({"name": name, "klass": klass, "spec": spec, "src": gen_app.render(spec)})
+    # C08: one documented rule violated per application (tools/gen_planted.py, if present)
+    try:
+        import gen_planted
+    except ImportError:
+        gen_planted = None
+    if gen_planted is not None:
+        prng = random.Random(R.seed * 104729 + (3 if R.tier == "quick" else 4))
+        for j, rule in enumerate(gen_planted.plan(R.tier)):
+            name = "p%d" % j
+            base = gen_app.gen_spec(prng, name, "inclass")
+            spec = gen_planted.plant(prng, base, rule)
+            if spec is None:
+                continue
+            spec["klass"] = "planted:" + rule
+            progs.append({"name": name, "klass": "planted:" + rule, "spec": spec, "src": gen_app.render(spec)})
     return progs
 
 
